@@ -47,6 +47,7 @@ type nodeStats struct {
 	Scenarios                                                                                                                                                                           int
 	C08Compared, C08Resets, TwoRoundScenarios, C08InDealsWindow, ReinitProbes, Reinits, FarFutureProposals, ProposedAfterFailure                                                                                                  int
 	W24ForeignBefore, W24ReinitInnerID, W24LookAlikeIDs, W24HeldBack int // nodew24.go
+	W24DroppedRounds, W24DroppedUserMsgs int // nodew24d.go
 	CancelledRounds                                                                                                                                                                     int
 	C08Late, C08StampsMoved, PrefilledResults, JSONVariants, KeylessReinits, ReinitVariants, ForgedOwnName, CollectedHere, C08RealLoop, ProposalsStored, ReorderedReinits, ErrorResults int
 	StaleSignatures, ForgedAnnouncements, ForgedAnnouncementsNoRound, RekeyedRoundBoards, RekeyedRoundCopies                                                                            int
@@ -1372,6 +1373,7 @@ func runNodeDiff(outDir string, seed int64, tier string) {
 	r.rekeyedRounds(outDir)
 	r.faultedAnswers(outDir)
 	r.w24HeldBackAnnouncement(outDir) // nodew24.go (C02)
+	r.w24dDroppedParticipant(outDir) // nodew24d.go (C10)
 	r.ops.Flush()
 	r.obs.Flush()
 	fo.Close()
